@@ -596,10 +596,14 @@ def c10_trigger(text, flag, phrase):
 @replay('c10_cluster')
 def c10_cluster(text, flag, words):
     import pytrs
-    d = pytrs.PLSSDesc('T154N-R97W Sec 14: ' + text)
-    lines = [c for f, c in d.w_flag_lines if f == flag]
-    missing = [w for w in words if not any(w in c for c in lines)]
-    return bool(missing), f'{text!r}: trigger words {missing} are in no {flag!r} flag context; flag lines {d.w_flag_lines}'
+    out = []
+    for full in ('T154N-R97W Sec 14: ' + text, text + ' in Section 14, T154N-R97W'):     # trigger late / early in the chunk
+        d = pytrs.PLSSDesc(full)
+        lines = [c for f, c in d.w_flag_lines if f == flag]
+        missing = [w for w in words if not any(w in c for c in lines)]
+        if missing:
+            out.append(f'{full!r}: trigger words {missing} are in no {flag!r} flag context; flag lines {d.w_flag_lines}')
+    return bool(out), ' || '.join(out) or 'every trigger word is inside a flag context'
 
 
 @replay('c10_flags')
@@ -737,7 +741,7 @@ def c11_fallback(text, config, has_tr, has_sec):
         return True, f'two tracts carry the complete text: {[(t.trs, t.desc) for t in d.tracts]}'
     forced = config == 'copy_all'
     forced_other = config in ('TRS_desc', 'desc_STR', 'S_desc_TR', 'TR_desc_S')
-    if forced or ((not has_tr or not has_sec) and 'segment' not in config and not forced_other):
+    if forced or ((not has_tr or not has_sec) and not forced_other):
         if len(d.tracts) != 1 or not whole(d.tracts[0].desc, pp):
             return True, f'expected one tract with the whole text, got {[(t.trs, t.desc) for t in d.tracts]}'
         if not forced and not d.e_flags:
